@@ -294,6 +294,8 @@ class _Arith(Sym):
         return as_real_term(self), as_real_term(o), False
 
     def __add__(self, o):
+        if isinstance(_py(o), (complex, SymComplex)):
+            return SymComplex(self, 0.0).__add__(o)
         c = self._coerce(o)
         if c is None:
             return NotImplemented
@@ -302,18 +304,24 @@ class _Arith(Sym):
     __radd__ = __add__
 
     def __sub__(self, o):
+        if isinstance(_py(o), (complex, SymComplex)):
+            return SymComplex(self, 0.0).__sub__(o)
         c = self._coerce(o)
         if c is None:
             return NotImplemented
         return _mk(_fold(c[0] - c[1]))
 
     def __rsub__(self, o):
+        if isinstance(_py(o), (complex, SymComplex)):
+            return SymComplex(self, 0.0).__rsub__(o)
         c = self._coerce(o)
         if c is None:
             return NotImplemented
         return _mk(_fold(c[1] - c[0]))
 
     def __mul__(self, o):
+        if isinstance(_py(o), (complex, SymComplex)):
+            return SymComplex(self, 0.0).__mul__(o)
         c = self._coerce(o)
         if c is None:
             return NotImplemented
@@ -341,12 +349,16 @@ class _Arith(Sym):
         return SymReal(_fold(a / b))
 
     def __truediv__(self, o):
+        if isinstance(_py(o), (complex, SymComplex)):
+            return SymComplex(self, 0.0).__truediv__(o)
         o = _py(o)
         if not _num(o):
             return NotImplemented
         return self._div(as_real_term(self), as_real_term(o))
 
     def __rtruediv__(self, o):
+        if isinstance(_py(o), (complex, SymComplex)):
+            return SymComplex(self, 0.0).__rtruediv__(o)
         o = _py(o)
         if not _num(o):
             return NotImplemented
@@ -546,13 +558,19 @@ class _Arith(Sym):
         c = core.ctx()
         if c is None:
             raise Unsupported("sqrt outside exploration")
-        key = ("sqrt", a.get_id())
+        # one root symbol per polynomial: key on the sum-of-monomials normal form, so that the same radicand built in a
+        # different association order (library vs oracle) shares its root and UF congruence can see it
+        try:
+            canon = z3.simplify(a, som=True, sort_sums=True)
+        except z3.Z3Exception:
+            canon = s
+        key = ("sqrt", canon.get_id())
         hit = c.cache.get(key)
-        if hit is not None and hit[1].eq(a):
+        if hit is not None and hit[1].eq(canon):
             r = hit[0]
         else:
             r = c.fresh("sqrt")
-            c.cache[key] = (r, a)
+            c.cache[key] = (r, canon)
         # exact encoding: r >= 0 /\ (a >= 0 -> r*r == a); never restricts the inputs
         c.add_aux(z3.And(r >= 0, z3.Implies(a >= 0, r * r == a)), ("sqrt", a, r))
         return SymReal(r)
